@@ -684,6 +684,37 @@ async fn merge(
             if matches!(plan.shape, MergeShape::TopN) && result.row_count == 0 {
                 result.batches.clear();
             }
+            // The merge query aliases its outputs by bare column name; the
+            // single-node answer labels a qualified column `rel.col`. Same
+            // statement, same labels.
+            let labels = &plan.output_labels;
+            if labels.len() == result.schema.fields().len()
+                && result
+                    .schema
+                    .fields()
+                    .iter()
+                    .zip(labels.iter())
+                    .any(|(f, l)| f.name() != l)
+            {
+                let relabel = |s: &arrow::datatypes::Schema| {
+                    Arc::new(arrow::datatypes::Schema::new(
+                        s.fields()
+                            .iter()
+                            .zip(labels.iter())
+                            .map(|(f, l)| f.as_ref().clone().with_name(l.clone()))
+                            .collect::<Vec<_>>(),
+                    ))
+                };
+                result.schema = relabel(result.schema.as_ref());
+                result.batches = result
+                    .batches
+                    .iter()
+                    .map(|b| {
+                        RecordBatch::try_new(relabel(b.schema().as_ref()), b.columns().to_vec())
+                            .map_err(QueryError::from)
+                    })
+                    .collect::<Result<Vec<_>>>()?;
+            }
             Ok(result)
         }
     }
